@@ -4,6 +4,31 @@ import json, os
 ROOT = os.path.dirname(os.path.dirname(os.path.abspath(__file__)))
 
 CHECKS = {
+ "C04": dict(
+   text="Every model of the graph alphabet (all leaves and all binary operator combinations for two relations x tupleset variants, plus three-relation cyclic and nested families) is built under every map-iteration schedule within the budgets (start orders fully permuted on small graphs); on every accepted execution all node and edge weights must equal a reference computed on the AST graph: type sets as least fixpoint with operand-level semantics, weights as longest hop count in the type-relevant subgraph, Infinite iff a cycle is reachable.",
+   note="Known finding F10 (edge-wise evaluation of intersection/exclusion operands) is suppressed only where the observed maps equal its defect model exactly; map order is owned by build-time rewriting; operators matched structurally.",
+   technique="exhaustive schedule exploration x bounded exhaustive model enumeration against a reference weight semantics",
+   design="3/C04"),
+ "C05": dict(
+   text="Same exploration; on every schedule the verdict must be 'rejected with one of the three sentinel errors' exactly when the reference predicate finds the model ill-founded (rewrite-only cycle, intersection/exclusion on a cycle, TTU over an unrestricted/undefined tupleset or a parent lacking the relation, empty intersection, relation without terminal type).",
+   note="F10's defect model is the only suppression; TTU-defect models are injected at every operand position.",
+   technique="exhaustive schedule exploration x bounded exhaustive model enumeration against a reference well-foundedness predicate",
+   design="3/C05"),
+ "C06": dict(
+   text="Same exploration with a purely differential oracle: one verdict and one canonical dump (weights, wildcard sets, edge kinds, conditions; operators identified structurally) across all schedules, across every permutation of the type-definition list, and identical relation weights across every permutation of the operands of each union/intersection. The concurrent-build clause is decided by C13's interleaving exploration.",
+   note="'Verdict' is accepted/rejected as the statement says; which sentinel a rejection carries is not compared.",
+   technique="exhaustive exploration of map-iteration schedules and input permutations with a differential oracle",
+   design="3/C06"),
+ "C10": dict(
+   text="Structure alphabet (duplicate/mixed conditioned restrictions, repeated operands, direct assignment twice under one operator, depth-3 nesting, repeated parent types) plus the graph alphabet: on every accepted execution an ordered parallel traversal of reference graph and real graph must agree on nodes, edge order, kinds, targets, tupleset labels and ordered condition sets; the model is unchanged by Build.",
+   note="Conditions on TTU edges and identical TTU operands under one operator are outside what the statement fixes.",
+   technique="bounded exhaustive model enumeration x map schedules against a reference graph construction",
+   design="3/C10"),
+ "C11": dict(
+   text="Wildcard alphabet (public restrictions in every leaf position, inside and behind tuple cycles, under intersections/exclusions, distinct public types on both sides of a cycle) plus the graph alphabet, all schedules: node wildcard list = set of public types reachable along the real edges, edge list = target's set, no duplicates.",
+   note="Judged on well-founded accepted models; C10 vouches for the edges.",
+   technique="exhaustive schedule exploration x bounded exhaustive model enumeration against a reachability reference",
+   design="3/C11"),
  "C07": dict(
    text="All module file sets within the bounds (2-3 files, <= 2-3 declarations each from a menu of 11, plus malformed members) x every permutation of the file list x schema versions x map-iteration schedules of the merger: success exactly when the reference merge over the generator's declarations says so; on success the exact attributed union (also via GetModuleForObjectTypeRelation) and the requested schema version; on failure no model, no panic, and for every reference conflict an error naming a participating file.",
    note="File names within a set are distinct; 'names the offending file' is demanded for the four conflict kinds only (parse failures and 'file is not a module' have no file field in the API).",
